@@ -4,7 +4,7 @@
    document level: that the HTML parser does not move a block into a marker when it re-parses the
    stream is checked per input by the observer. *)
 From Coq Require Import List NArith Arith Bool String.
-From WMD Require Import Gen.Tables Lib.Str Lib.PyChars Lib.Escape Lib.Difflib Model.RenderTokens Model.RenderMerge
+From WMD Require Import Gen.Tables Lib.Str Lib.PyChars Lib.Escape Lib.Difflib Model.RenderTokens Model.RenderMerge Model.RenderLabelled
      Proofs.DifflibProofs Proofs.MergeProofs Proofs.TokenProofs Proofs.AssembleProofs Proofs.RenderProofs Proofs.ReconcileProofs Proofs.CombinedProofs Proofs.NestingProofs.
 Import ListNotations.
 Open Scope N_scope.
